@@ -14,3 +14,34 @@ def html_path_followed_by_command():
         return kinds, t.diffs[:2]
     finally:
         t.destroy()
+
+
+def push_dry_run_short_option_changes_the_remote():
+    """D87 (fixed): `git push -n origin main` (the short form of --dry-run) after a commit with an agent's line: plain git leaves the remote
+    untouched; through the proxy the remote received refs/notes/ai (only the literal `--dry-run` was recognised)."""
+    import os
+    t = Twin("WD87", 0, 0, hooks_kind="none")
+    try:
+        rem = {}
+        for w in (t.A, t.B):
+            rem[w] = os.path.join(w.root, "remote.git")
+            w.ogit("init", "-q", "--bare", "-b", "main", rem[w], cwd=w.root)
+            w.git("remote", "add", "origin", rem[w], plain=True, tick=False)
+        t.write_both("a.txt", "x\n")
+        t.run("add", "-A"); t.run("commit", "-q", "-m", "init")
+        t.run("push", "-q", "origin", "main")
+        t.ai_edit()
+        t.run("add", "-A"); t.run("commit", "-q", "-m", "agent work")
+        before = {w: w.ogit("for-each-ref", "--format=%(refname) %(objectname)", cwd=rem[w]) for w in (t.A, t.B)}
+        t.diffs = []
+        for form in (["push", "-n", "origin", "main"], ["push", "--dry-run", "origin", "main"], ["push", "-nq", "origin", "main"]):
+            t.run(*form, compare_stdout=False)
+            for w, name in ((t.A, "proxy"), (t.B, "plain")):
+                after = w.ogit("for-each-ref", "--format=%(refname) %(objectname)", cwd=rem[w])
+                if after != before[w]:
+                    t.diffs.append(dict(cmd=form, diffs=[dict(what="remote-changed-by-dry-run", world=name, before=before[w], after=after)]))
+                    before[w] = after
+        kinds = sorted({"C06/" + d["diffs"][0]["what"] + "@" + " ".join(d["cmd"]) for d in t.diffs})
+        return kinds, t.diffs[:2]
+    finally:
+        t.destroy()
